@@ -1,11 +1,13 @@
-import FiberModel.C10.ValidLemmas
+import FiberModel.C10.CidrLemmas
 /-
-C10 — property theorems (only). Helper lemmas: Lemmas, IPLemmas.
+C10 — property theorems (only). Helper lemmas: Lemmas, IPLemmas, ValidLemmas, V6Lemmas, V6Complete, StringLemmas, CidrLemmas.
 
 Quantifiers: every configuration (flags, parsed `Proxies`, ProxyHeader, validation), every peer
 address (4 or 16 bytes), TLS or not, every Host, every list of request headers.
 Parameter hypotheses (about Go's `net` package, checked by the driver on every case):
-`bytesOK` (address bytes are bytes) and `StringFaithful` (`IP.String()` identifies the address).
+`bytesOK` (address bytes are bytes) and `StringFaithful` (`IP.String()` identifies the address). The
+`…_of_format` versions replace both by `FormatOK`: the shipped texts are what the TRANSCRIBED
+`net.IP.String()` (`ipString`) prints — `StringFaithful` is then a theorem (`ipString_inj`).
 -/
 namespace C10
 open B
@@ -99,6 +101,27 @@ theorem inSet_documented_values (cfg : Cfg) (cn : Conn) (off : Nat) (hs : Header
     documented utilsValid cfg cn off hs (outputs cfg cn off hs) = none :=
   trusted_documented_values cfg cn off hs (inSet_trusted cfg cn hb hstr h)
 
+/-- fiber's validators decide exactly the RFC 791 / RFC 4291 §2.2 text grammar -/
+theorem utilsValid_is_validIP : utilsValid = validIP := funext utilsValid_eq_validIP
+
+/-- **the documented values, with "the first valid IP address" read in the RFC grammar** — the very
+    function the run-time oracle evaluates on the implementation's outputs (`documented validIP`) is
+    satisfied by the model's outputs for every trusted peer, every configuration and header list. -/
+theorem trusted_documented_values_rfc (cfg : Cfg) (cn : Conn) (off : Nat) (hs : Headers)
+    (ht : isProxyTrusted cfg cn = true) :
+    documented validIP cfg cn off hs (outputs cfg cn off hs) = none := by
+  rw [← utilsValid_is_validIP]; exact trusted_documented_values cfg cn off hs ht
+
+/-- with validation on, a trusted peer and a ProxyHeader configured, `IP()` is the first element of
+    the comma-separated header value (trimmed of spaces) in the RFC grammar, else the peer's address -/
+theorem trusted_ip_first_valid (cfg : Cfg) (cn : Conn) (hs : Headers) (ht : isProxyTrusted cfg cn = true)
+    (hp : cfg.proxyHeader ≠ []) (hv : cfg.validate = true) :
+    ip cfg cn hs = (firstValid validIP (get hs cfg.normProxyHeader)).getD cn.ripStr := by
+  unfold ip extractIPFromHeader
+  simp only [ht, Bool.true_and, bne_iff_ne, ne_eq, hp, not_false_eq_true, if_true, hv]
+  rw [firstIP_eq_firstValid _ _ (Nat.lt_succ_self _), utilsValid_is_validIP]
+  cases firstValid validIP (get hs cfg.normProxyHeader) <;> rfl
+
 -- non-vacuity: peer 10.0.0.1 is listed; the forwarded values are used
 example :
     let cfg : Cfg := { trustProxy := true, loopback := false, priv := false, linkLocal := false,
@@ -126,35 +149,67 @@ theorem validated_ip_is_accepted (cfg : Cfg) (cn : Conn) (hs : Headers) (hv : cf
     | some s => right; exact List.find?_some hf
   · left; rfl
 
-/- Full statement (NOT proved, and false on the unchanged tree, see K1):
-     cfg.validate = true → validIP cn.ripStr = true → validIP (ip cfg cn hs) = true
-   i.e. the reported address is always in the RFC 791 / RFC 4291 text grammar. -/
-/-- With IP validation on, the reported client IP is the peer's own address, or a syntactically
-    valid dotted quad (RFC 791: four decimal octets ≤ 255 without leading zeros), or an element
-    containing a colon that `utils.IsIPv6` accepts. Partial: that `utils.IsIPv6` accepts only RFC 4291
-    text forms is not proved here (it is false for groups of more than four hex digits — known finding
-    K1 — and otherwise covered by the spec oracle on every observed output). -/
-theorem validated_ip_is_valid_partial (cfg : Cfg) (cn : Conn) (hs : Headers) (hv : cfg.validate = true) :
-    ip cfg cn hs = cn.ripStr ∨ validIPv4 (ip cfg cn hs) = true ∨
-      ((ip cfg cn hs).contains 58 = true ∧ isIPv6 (ip cfg cn hs) = true) := by
+/-- **With IP validation on, the reported client IP is always a syntactically valid address**: the
+    peer's own address (as `net.IP.String()` prints it), or an element of the ProxyHeader in the
+    RFC 791 dotted-quad / RFC 4291 §2.2 text grammar (`validIP`, the grammar the run-time oracle
+    evaluates). Rests on `isIPv4_valid` and `fiberIsIPv6_valid` (the transcribed loops of
+    `utils.IsIPv4` / `utils.IsIPv6` behind fiber's group-length scan accept only the grammar). -/
+theorem validated_ip_is_valid (cfg : Cfg) (cn : Conn) (hs : Headers) (hv : cfg.validate = true)
+    (hpeer : validIP cn.ripStr = true) : validIP (ip cfg cn hs) = true := by
   rcases validated_ip_is_accepted cfg cn hs hv with h | h
-  · left; exact h
-  · right
-    unfold utilsValid at h
-    split at h
-    · rename_i h6; right; exact ⟨h6, h⟩
-    · split at h
-      · left; exact isIPv4_valid h
-      · cases h
+  · rw [h]; exact hpeer
+  · exact utilsValid_valid h
 
-/-- the known finding K1 as a theorem about the model: validation on, trusted peer,
-    `X-Forwarded-For: 0:0:0:0:0:0:0:00001` is reported although it is not a valid address -/
-theorem validated_ip_is_valid_witness_K1 :
+-- non-vacuity: the first element is refused (a group of five digits: the input of the repaired
+-- defect F5), the second is reported
+example :
     let cfg : Cfg := { trustProxy := true, loopback := true, priv := false, linkLocal := false, proxies := [],
                        proxyHeader := b "X-Forwarded-For", normProxyHeader := b "X-Forwarded-For", validate := true }
     let cn : Conn := { rip := [127, 0, 0, 1], ripStr := b "127.0.0.1", tls := false, uriHost := b "example.com", proto := b "HTTP/1.1" }
-    let hs : Headers := [(b "X-Forwarded-For", b "0:0:0:0:0:0:0:00001")]
-    ¬ (validIP (ip cfg cn hs) = true) ∧ Known.K1 cfg hs = true := by
+    let hs : Headers := [(b "X-Forwarded-For", b "0:0:0:0:0:0:0:00001, 2001:db8::1.2.3.4")]
+    cfg.validate = true ∧ validIP cn.ripStr = true ∧ ip cfg cn hs = b "2001:db8::1.2.3.4" ∧
+      ips cfg hs = [b "2001:db8::1.2.3.4"] := by
+  decide
+
+/-- one loop iteration's test (`v6`/`v4` flags of the segment, fiber's `isIPv6`, `utils.IsIPv4`)
+    lets only syntactically valid candidates through -/
+theorem passes_valid {seg s : Bytes} (h : passes true seg s = true) : validIP s = true := by
+  unfold passes at h
+  unfold validIP
+  simp only at h
+  generalize seg.contains 58 = v6 at h
+  generalize seg.contains 46 = v4 at h
+  cases v6 <;> cases v4 <;> simp at h
+  · simp [isIPv4_valid h]
+  · simp [fiberIsIPv6_valid h]
+  · simp [fiberIsIPv6_valid h]
+
+/-- **with IP validation on every element of `IPs()` is a syntactically valid address** -/
+theorem validated_ips_valid (cfg : Cfg) (hs : Headers) (hv : cfg.validate = true) :
+    ∀ s ∈ ips cfg hs, validIP s = true := by
+  unfold ips
+  simp only [hv]
+  generalize get hs sXFF = hvv
+  generalize hvv.length + 1 = fuel
+  induction fuel generalizing hvv with
+  | zero => intro s h; simp [allIPs] at h
+  | succ f ih =>
+    intro s h
+    cases hvv with
+    | nil => simp [allIPs] at h
+    | cons c0 tl =>
+      simp only [allIPs] at h
+      split at h
+      · rename_i hp
+        rcases List.mem_cons.1 h with rfl | h
+        · exact passes_valid hp
+        · exact ih _ s h
+      · exact ih _ s h
+
+example :
+    let cfg : Cfg := { trustProxy := true, loopback := false, priv := false, linkLocal := false, proxies := [],
+                       proxyHeader := [], normProxyHeader := [], validate := true }
+    ips cfg [(b "X-Forwarded-For", b "1.2.3.4, bogus, ::ffff:5.6.7.8 ,12345::, 01.2.3.4")] = [b "1.2.3.4", b "::ffff:5.6.7.8"] := by
   decide
 
 /-- the same for every element of `IPs()` -/
@@ -178,6 +233,154 @@ theorem validated_ips_accepted (cfg : Cfg) (hs : Headers) (hv : cfg.validate = t
         · exact ⟨_, hp⟩
         · exact ih _ s h
       · exact ih _ s h
+
+/-! ### header precedence, spelled out (corollaries of `trusted_documented_values` / `scheme_fold`) -/
+
+/-- what one header says about the scheme: `X-Forwarded-Proto` / `-Protocol` the first element of
+    their comma list, `X-Url-Scheme` its whole value (commas included), `X-Forwarded-Ssl` https when it
+    is exactly `on` and nothing otherwise; any other name (look-alikes such as `X-Forwarded-Protoc`,
+    `X-Url-Schemes`, `Forwarded`) nothing -/
+theorem schemeOf_cases (k v : Bytes) :
+    schemeOf (k, v) =
+      if k = sXFProto ∨ k = sXFProtocol then some (v.takeWhile (· != 44))
+      else if k = sXFSsl then (if v = b "on" then some sHTTPS else none)
+      else if k = sXUrlScheme then some v
+      else none := by
+  unfold schemeOf
+  by_cases h1 : k = sXFProto
+  · subst h1; simp [pieces_head']
+  by_cases h2 : k = sXFProtocol
+  · subst h2; simp [pieces_head']
+  by_cases h3 : k = sXFSsl
+  · subst h3
+    have e1 : (sXFSsl == sXFProto) = false := by decide
+    have e2 : (sXFSsl == sXFProtocol) = false := by decide
+    have n1 : ¬ sXFSsl = sXFProto := by decide
+    have n2 : ¬ sXFSsl = sXFProtocol := by decide
+    by_cases hv : v = b "on" <;> simp [e1, e2, n1, n2, hv]
+  · simp [h1, h2, h3]
+
+/-- TLS wins over every header -/
+theorem scheme_tls_wins (cfg : Cfg) (cn : Conn) (hs : Headers) (h : cn.tls = true) : scheme cfg cn hs = sHTTPS := by
+  simp [scheme, h]
+
+/-- **the last header that says something decides**: whatever stands in front of it, whichever of the
+    four it is, however often the same name occurs -/
+theorem scheme_last_wins (cfg : Cfg) (cn : Conn) (ht : isProxyTrusted cfg cn = true) (hn : cn.tls = false)
+    (pre post : Headers) (kv : Bytes × Bytes) (v : Bytes) (hkv : schemeOf kv = some v)
+    (hpost : ∀ p ∈ post, schemeOf p = none) : scheme cfg cn (pre ++ kv :: post) = v := by
+  have hf : post.reverse.filterMap schemeOf = [] := by
+    rw [List.filterMap_eq_nil_iff]; intro p hp; exact hpost p (List.mem_reverse.1 hp)
+  unfold scheme
+  simp only [hn, ht, Bool.false_eq_true, if_false, Bool.not_true]
+  rw [scheme_fold]
+  have : (pre ++ kv :: post).reverse.filterMap schemeOf = v :: pre.reverse.filterMap schemeOf := by
+    rw [List.reverse_append, List.reverse_cons, List.filterMap_append, List.filterMap_append, hf]
+    simp [List.filterMap, hkv]
+  rw [this]; rfl
+
+/-- no header says anything (none of the four names, or only `X-Forwarded-Ssl` other than `on`): http -/
+theorem scheme_default (cfg : Cfg) (cn : Conn) (ht : isProxyTrusted cfg cn = true) (hn : cn.tls = false)
+    (hs : Headers) (h : ∀ p ∈ hs, schemeOf p = none) : scheme cfg cn hs = sHTTP := by
+  have hf : hs.reverse.filterMap schemeOf = [] := by
+    rw [List.filterMap_eq_nil_iff]; intro p hp; exact h p (List.mem_reverse.1 hp)
+  simp [scheme, ht, hn, scheme_fold, hf]
+
+-- non-vacuity: all four at once, twice over; `X-Forwarded-Ssl: off` at the end says nothing, so the
+-- `X-Url-Scheme` before it decides; a look-alike name in between is ignored
+example :
+    let cfg : Cfg := { trustProxy := false, loopback := false, priv := false, linkLocal := false, proxies := [],
+                       proxyHeader := [], normProxyHeader := [], validate := false }
+    let cn : Conn := { rip := [8, 8, 8, 8], ripStr := b "8.8.8.8", tls := false, uriHost := b "example.com", proto := b "HTTP/1.1" }
+    scheme cfg cn [(sXFProto, b "https,http"), (sXFSsl, b "on"), (sXFProtocol, b "http"), (sXUrlScheme, b "wss,x"),
+                   (b "X-Url-Schemes", b "https"), (sXFSsl, b "off")] = b "wss,x" := by
+  decide
+
+/-- a trusted peer's host is the first element of the FIRST `X-Forwarded-Host` header (whatever it
+    contains: port, IPv6 literal, nothing at all in front of a leading comma) when that header is not
+    empty, else the Host header -/
+theorem host_forwarded (cfg : Cfg) (cn : Conn) (hs : Headers) (ht : isProxyTrusted cfg cn = true) :
+    host cfg cn hs = if get hs sXFH = [] then cn.uriHost else (get hs sXFH).takeWhile (· != 44) := by
+  by_cases h : get hs sXFH = [] <;> simp [host, ht, h, upToComma]
+
+/-- hostname = host up to its LAST colon: a port is cut off, also behind an IPv6 literal -/
+theorem hostOnly_port (h p : Bytes) (hp : ¬ 58 ∈ p) : hostOnly (h ++ 58 :: p) = h := by
+  unfold hostOnly
+  have hc : (h ++ 58 :: p).contains 58 = true := by simp
+  rw [hc]
+  simp only [if_true, List.reverse_append, List.reverse_cons, List.append_assoc, List.singleton_append]
+  have hd : (p.reverse ++ 58 :: h.reverse).dropWhile (· != 58) = 58 :: h.reverse := by
+    rw [List.dropWhile_append]
+    have hall : ∀ (l : Bytes), (¬ 58 ∈ l) → l.dropWhile (· != 58) = [] := by
+      intro l hl
+      induction l with
+      | nil => rfl
+      | cons x xs ih =>
+        have hx : (x != 58) = true := by
+          have : x ≠ 58 := fun e => hl (by simp [e])
+          simpa using this
+        simp only [List.dropWhile_cons, hx, if_true]
+        exact ih fun e => hl (by simp [e])
+    have : p.reverse.dropWhile (· != 58) = [] := hall _ (fun e => hp (List.mem_reverse.1 e))
+    simp [this]
+  rw [hd]; simp
+
+theorem hostOnly_noColon (h : Bytes) (hc : ¬ 58 ∈ h) : hostOnly h = h := by
+  unfold hostOnly
+  have : h.contains 58 = false := by
+    cases hh : h.contains 58 with
+    | false => rfl
+    | true => exact absurd (List.contains_iff_mem.1 hh) hc
+  rw [this]; rfl
+
+example : hostOnly (b "[2001:db8::1]:8080") = b "[2001:db8::1]" ∧ hostOnly (b "a.example.com:443") = b "a.example.com" ∧
+    hostOnly (b "example.com") = b "example.com" := by decide
+
+/-! ### the same with `net.IP.String()` inside the model -/
+
+/-- the trust decision is membership in the configured set, for every peer and every list of
+    configured addresses whose texts are `net.IP.String()` as transcribed (`ipString`) — no assumption
+    about `String()` left: two addresses print alike iff they are the same address (`ipString_inj`) -/
+theorem trusted_eq_inSet_of_format (cfg : Cfg) (cn : Conn) (hf : FormatOK cfg.proxies cn) :
+    isProxyTrusted cfg cn = (!cfg.trustProxy || inSet cfg cn) :=
+  trusted_eq_inSet cfg cn hf.2.1 (stringFaithful_of_format cfg.proxies cn hf)
+
+theorem untrusted_noninterference_of_format (cfg : Cfg) (cn : Conn) (off : Nat) (hf : FormatOK cfg.proxies cn)
+    (hon : cfg.trustProxy = true) (hout : inSet cfg cn = false) (hs1 hs2 : Headers) :
+    gated (outputs cfg cn off hs1) = gated (outputs cfg cn off hs2) ∧
+    connOnly cn off (outputs cfg cn off hs1) = true :=
+  untrusted_noninterference cfg cn off hf.2.1 (stringFaithful_of_format cfg.proxies cn hf) hon hout hs1 hs2
+
+theorem inSet_documented_values_of_format (cfg : Cfg) (cn : Conn) (off : Nat) (hs : Headers)
+    (hf : FormatOK cfg.proxies cn) (h : cfg.trustProxy = false ∨ inSet cfg cn = true) :
+    documented validIP cfg cn off hs (outputs cfg cn off hs) = none :=
+  trusted_documented_values_rfc cfg cn off hs
+    (inSet_trusted cfg cn hf.2.1 (stringFaithful_of_format cfg.proxies cn hf) h)
+
+/-- with validation on the reported IP is a syntactically valid address — unconditionally: the peer's
+    own text is `ipString` of its bytes, which is in the grammar (`ipString_valid`) -/
+theorem validated_ip_is_valid_of_format (cfg : Cfg) (cn : Conn) (hs : Headers) (hf : FormatOK cfg.proxies cn)
+    (hv : cfg.validate = true) : validIP (ip cfg cn hs) = true :=
+  validated_ip_is_valid cfg cn hs hv (by rw [hf.2.2.1]; exact ipString_valid cn.rip hf.1 hf.2.1)
+
+-- non-vacuity: a 16-byte peer 2001:db8::1, listed in another spelling's canonical key; a look-alike
+-- entry (the low four bytes as IPv4) and the v4-mapped form of those bytes do not cover it
+example :
+    let peer : Bytes := [0x20, 1, 0xd, 0xb8, 0, 0, 0, 0, 0, 0, 0, 0, 0, 0, 0, 1]
+    let other : Bytes := v4in6 ++ [0, 0, 0, 1]
+    let cn : Conn := { rip := peer, ripStr := b "2001:db8::1", tls := false, uriHost := b "example.com", proto := b "HTTP/1.1" }
+    FormatOK [.ip (b "2001:db8::1") peer, .ip (b "0.0.0.1") other] cn ∧
+    FormatOK [.ip (b "0.0.0.1") other] cn ∧
+    inSet { trustProxy := true, loopback := false, priv := false, linkLocal := false, proxies := [.ip (b "0.0.0.1") other],
+            proxyHeader := [], normProxyHeader := [], validate := false } cn = false := by
+  refine ⟨⟨Or.inr rfl, by unfold bytesOK; decide, by decide, ?_⟩, ⟨Or.inr rfl, by unfold bytesOK; decide, by decide, ?_⟩, by decide⟩
+  · intro canon ip16 hm
+    simp only [List.mem_cons, Proxy.ip.injEq, List.mem_nil_iff, or_false] at hm
+    rcases hm with ⟨rfl, rfl⟩ | ⟨rfl, rfl⟩ <;> exact ⟨rfl, by unfold bytesOK; decide, by decide⟩
+  · intro canon ip16 hm
+    simp only [List.mem_cons, Proxy.ip.injEq, List.mem_nil_iff, or_false] at hm
+    rcases hm with ⟨rfl, rfl⟩
+    exact ⟨rfl, by unfold bytesOK; decide, by decide⟩
 
 /-! ### secure flag -/
 
